@@ -46,10 +46,10 @@ Definition fp_score_u8_neon (C : Z) (p : SP) : list access :=
     (zrange (pa p) (pb p)))
   (zrange 0 (C / 16)).
 
-(* Neon::score_f32_rows_into / score_u8_rows_into: the wrap check and the early return of the x86
-   wrappers but NO check of the row range against the matrix (the repair of commit 38882ad did not
-   reach neon.rs): `ranged = false` is the code as it is, `ranged = true` the code with the missing
-   three lines *)
+(* Neon::score_f32_rows_into / score_u8_rows_into: the guards of the x86 wrappers (score_guard).
+   `ranged = true` is the code as it is since commit 9cd9b52 (row-range check added, finding F26);
+   `ranged = false` the wrappers before it: wrap check and early return only — the repair of the x86
+   wrappers (commit 38882ad) had not reached neon.rs *)
 Definition wrap_score_f32_neon (ranged : bool) (C : Z) (p : SP) : res kernel_run :=
   score_guard ranged p (fun _ => fp_score_f32_neon C p).
 Definition wrap_score_u8_neon (ranged : bool) (C : Z) (p : SP) : res kernel_run :=
@@ -60,6 +60,6 @@ Definition balign_mat16 (b : nat) : Z :=
   if Nat.eqb b B_SRC then 16 else if Nat.eqb b B_DST then 16 else if Nat.eqb b B_PSSM then 16 else 1.
 Definition layout16_ok (es C st : Z) : Prop := 0 < es /\ 0 < C /\ C <= st /\ (st * es) mod 16 = 0.
 
-(* the call that shows the missing guard: 64 symbols in C = 16 columns (4 sequence rows), a motif of
+(* the call that showed the missing guard (F26): 64 symbols in C = 16 columns (4 sequence rows), a motif of
    width 3 (2 look-ahead rows: 6 matrix rows), all 6 rows scored: K L SR wrap M a b sst pst dst *)
 Definition neon_rows_witness : SP := mkSP 5 64 6 2 3 0 6 16 8 16.
